@@ -221,6 +221,15 @@ def _enclosing_chain(body, rz):
                 return var, accepted
             if isinstance(st, ast.If):
                 et = eq_test(st.test)
+                in_body0 = any(n is rz for s_ in st.body for n in ast.walk(s_))
+                in_else0 = any(n is rz for s_ in st.orelse for n in ast.walk(s_))
+                if not (in_body0 or in_else0):
+                    # guard clause on the way: `if v == C: return ..` - what follows runs only when v differs from C
+                    # (the guard form of the if / elif / else dispatch)
+                    if et is not None and et[2] and not st.orelse and st.body and isinstance(st.body[-1], (ast.Return, ast.Raise, ast.Continue, ast.Break)) \
+                            and (var is None or et[0] == var):
+                        var, accepted = et[0], accepted + [et[1]]
+                    continue
                 in_body = any(n is rz for s_ in st.body for n in ast.walk(s_))
                 in_else = any(n is rz for s_ in st.orelse for n in ast.walk(s_))
                 if not (in_body or in_else):
